@@ -5,6 +5,7 @@ package connectconformance
 // against a scripted fake client process (see fakeproc_test.go).
 
 import (
+	"io"
 	"context"
 	"encoding/json"
 	"errors"
@@ -16,6 +17,7 @@ import (
 	"testing/synctest"
 	"time"
 
+	"connectrpc.com/conformance/internal"
 	conformancev1 "connectrpc.com/conformance/internal/gen/proto/go/connectrpc/conformance/v1"
 	"connectrpc.com/conformance/internal/verif/gate"
 	"connectrpc.com/conformance/internal/verif/rep"
@@ -29,7 +31,13 @@ type c10Scenario struct {
 	FaultName    string     `json:"fault_name,omitempty"`
 	StdinFault   string     `json:"stdin_fault"` // none closedpipe ioerr
 	StdinFaultAt int        `json:"stdin_fault_at"`
-	AnswerCuts   []int      `json:"answer_cuts,omitempty"` // every answer frame reaches the runner in pieces cut at these offsets
+	// Ghost: another framed stream of the same process (as a server's start-up response is) whose peer sends a
+	// prefix announcing GhostSize bytes, GhostHave of them, then stalls into the time-out - and delivers GhostLate
+	// more bytes later, at any moment (the abandoned reader is still parked on that stream)
+	GhostSize  int   `json:"ghost_size,omitempty"`
+	GhostHave  int   `json:"ghost_have,omitempty"`
+	GhostLate  int   `json:"ghost_late,omitempty"`
+	AnswerCuts []int `json:"answer_cuts,omitempty"` // every answer frame reaches the runner in pieces cut at these offsets
 	Sync         bool       `json:"sync_stdin,omitempty"`  // the input pipe has io.Pipe's semantics (see fakeScript.SyncStdin)
 	Main         string     `json:"main"`                  // closewait | stop
 	Bound        int        `json:"bound"`
@@ -61,6 +69,57 @@ type c10Obs struct {
 	PostSend    string
 	PostDone    bool
 	Running     bool
+	GhostErr    string
+}
+
+// c10GhostReader is the other stream: a prefix, part of the body, silence, and late bytes.
+type c10GhostReader struct {
+	mu        sync.Mutex
+	size      int
+	have      int
+	late      int
+	sentFirst bool
+	resumed   bool
+	lateSent  bool
+	wake      chan struct{}
+}
+
+func (g *c10GhostReader) Read(p []byte) (int, error) {
+	g.mu.Lock()
+	if !g.sentFirst {
+		g.sentFirst = true
+		b := []byte{byte(g.size >> 24), byte(g.size >> 16), byte(g.size >> 8), byte(g.size)}
+		for i := 0; i < g.have; i++ {
+			b = append(b, 0x0a)
+		}
+		g.mu.Unlock()
+		return copy(p, b), nil
+	}
+	g.mu.Unlock()
+	<-g.wake
+	g.mu.Lock()
+	defer g.mu.Unlock()
+	if g.lateSent {
+		return 0, io.EOF
+	}
+	g.lateSent = true
+	n := g.late
+	if n > len(p) {
+		n = len(p)
+	}
+	for i := 0; i < n; i++ {
+		p[i] = 0xee
+	}
+	return n, nil
+}
+
+func (g *c10GhostReader) resume() {
+	g.mu.Lock()
+	if !g.resumed {
+		g.resumed = true
+		close(g.wake)
+	}
+	g.mu.Unlock()
 }
 
 func (o *c10Obs) next() int { o.seq++; return o.seq }
@@ -128,7 +187,7 @@ func c10RunOne(t *testing.T, sc c10Scenario, prefix []int, expect []gate.PointRe
 					pk = append(pk, k)
 				}
 				sort.Strings(pk)
-				fmt.Fprintf(&sb, "|sent=%v pending=%v wait=%q/%d main=%v post=%q/%v cbs=", keys, pk, obs.WaitRet, obs.WaitSeq, obs.MainDone, obs.PostSend, obs.PostDone)
+				fmt.Fprintf(&sb, "|sent=%v pending=%v wait=%q/%d main=%v post=%q/%v ghost=%q cbs=", keys, pk, obs.WaitRet, obs.WaitSeq, obs.MainDone, obs.PostSend, obs.PostDone, obs.GhostErr)
 				for _, cb := range obs.Callbacks {
 					fmt.Fprintf(&sb, "%s/%v/%s/%d/%v;", cb.Name, cb.HasResp, cb.Err, cb.Seq, cb.Running)
 				}
@@ -137,11 +196,36 @@ func c10RunOne(t *testing.T, sc c10Scenario, prefix []int, expect []gate.PointRe
 			}
 		}
 		var wg sync.WaitGroup
+		if sc.GhostSize > 0 {
+			gr := &c10GhostReader{size: sc.GhostSize, have: sc.GhostHave, late: sc.GhostLate, wake: make(chan struct{})}
+			wg.Add(1)
+			x.Go("ghost", func() {
+				defer wg.Done()
+				msg := &conformancev1.ServerCompatResponse{}
+				err := internal.ReadDelimitedMessage(gr, msg, "server", 10*time.Second, 1<<20)
+				obs.mu.Lock()
+				if err != nil {
+					obs.GhostErr = err.Error()
+				} else {
+					obs.GhostErr = "ok"
+				}
+				obs.mu.Unlock()
+				// the stalled peer wakes up again some time after its reader gave up on it
+				x.Go("ghost.resume", func() {
+					gate.Point("ghost.resume")
+					gr.resume()
+				})
+			})
+		}
 		for si, names := range sc.Senders {
 			wg.Add(1)
 			x.Go(fmt.Sprintf("sender%d", si), func() {
 				defer wg.Done()
 				for i, name := range names {
+					if name == "@pause" {
+						time.Sleep(25 * time.Second) // longer than the runner waits for a silent client (virtual time)
+						continue
+					}
 					key := fmt.Sprintf("%d/%d/%s", si, i, name)
 					obs.mu.Lock()
 					obs.SendPending[key] = true
@@ -421,6 +505,22 @@ func c10Scenarios(thorough bool) []c10Scenario {
 				out = append(out, c10Scenario{Senders: ss, Fault: "stall", FaultAt: 1, AnswerCuts: cuts, StdinFault: "none", Main: "closewait"})
 			}
 		}
+	}
+	// another framed stream of the process times out half-way through a message and its peer delivers more
+	// bytes later, while the client's answer is arriving in pieces
+	for _, have := range []int{0, 2} {
+		for _, late := range []int{1, 6} {
+			for _, cuts := range [][]int{{5}, {4, 6}, {2, 7}} {
+				if !thorough && have == 0 && late == 1 {
+					continue
+				}
+				out = append(out, c10Scenario{Senders: [][]string{{"abc"}}, Fault: "none", GhostSize: 16, GhostHave: have, GhostLate: late, AnswerCuts: cuts, StdinFault: "none", Main: "closewait"})
+			}
+		}
+	}
+	// nothing outstanding and a silent client for longer than the response time-out, then another request
+	for _, ss := range [][][]string{{{"a", "@pause", "b"}}, {{"@pause", "a"}}, {{"a", "@pause", "b"}, {"c"}}} {
+		out = append(out, c10Scenario{Senders: ss, Fault: "none", StdinFault: "none", Main: "closewait"})
 	}
 	// the input pipe with io.Pipe's semantics: a write (the zero-length body of a request whose
 	// encoding is empty included) completes only when the client reads again, and fails when the
